@@ -1,3 +1,169 @@
 import ClipVerif.Model.Simplify
 namespace Proofs.C16
+open Gen Model
+
+/-! ### sub-sequence -/
+
+theorem filterMap_range_sublist {α} (l : List α) (flag : Nat → Bool) (g : Nat → α)
+    (hg : ∀ i, (h : i < l.length) → g i = l[i]) :
+    ∀ n, n ≤ l.length →
+      ((List.range n).filterMap fun i => if flag i then none else some (g i)).Sublist (l.take n) := by
+  intro n
+  induction n with
+  | zero => intro _; simp
+  | succ n ih =>
+    intro hn
+    rw [List.range_succ, List.filterMap_append, List.take_add_one]
+    refine (ih (by omega)).append ?_
+    have e : l[n]? = some (g n) := by
+      rw [List.getElem?_eq_getElem (by omega), hg n (by omega)]
+    rw [e]
+    cases hfn : flag n
+    · simp only [List.filterMap_cons, hfn, List.filterMap_nil, Option.toList_some]
+      exact List.Sublist.refl _
+    · simp only [List.filterMap_cons, hfn, List.filterMap_nil, Option.toList_some]
+      exact List.nil_sublist _
+
+/-! ### scans -/
+
+theorem up_spec (high : Nat) (flags : Array Bool) : ∀ (fuel c : Nat), c ≤ high + 1 → high + 1 - c < fuel →
+    getNext.up high flags c fuel ≤ high + 1 ∧
+      (getNext.up high flags c fuel ≤ high → flags[getNext.up high flags c fuel]! = false) := by
+  intro fuel
+  induction fuel with
+  | zero => intro c _ h; omega
+  | succ f ih =>
+    intro c hc hf
+    unfold getNext.up
+    split
+    · rename_i hcond
+      exact ih (c + 1) (by omega) (by omega)
+    · rename_i hcond
+      refine ⟨hc, fun h => ?_⟩
+      cases hfl : flags[c]!
+      · rfl
+      · exact absurd ⟨h, hfl⟩ hcond
+
+theorem up0_spec (flags : Array Bool) : ∀ (fuel c i : Nat), c ≤ i → flags[i]! = false → i - c < fuel →
+    getNext.up0 flags c fuel ≤ i ∧ flags[getNext.up0 flags c fuel]! = false := by
+  intro fuel
+  induction fuel with
+  | zero => intro c i _ _ h; omega
+  | succ f ih =>
+    intro c i hci hi hf
+    unfold getNext.up0
+    split
+    · rename_i hcond
+      have : c ≠ i := by intro e; subst e; simp [hi] at hcond
+      exact ih (c + 1) i (by omega) hi (by omega)
+    · rename_i hcond
+      exact ⟨hci, by simpa using hcond⟩
+
+theorem down_le (flags : Array Bool) : ∀ (fuel c : Nat), getPrior.down flags c fuel ≤ c := by
+  intro fuel
+  induction fuel with
+  | zero => intro c; unfold getPrior.down; exact Nat.le_refl _
+  | succ f ih =>
+    intro c
+    unfold getPrior.down
+    split
+    · exact Nat.le_trans (ih (c - 1)) (Nat.sub_le _ _)
+    · exact Nat.le_refl _
+
+theorem downH_spec (flags : Array Bool) : ∀ (fuel c i : Nat), i ≤ c → flags[i]! = false → c - i < fuel →
+    getPrior.downH flags c fuel ≤ c ∧ flags[getPrior.downH flags c fuel]! = false := by
+  intro fuel
+  induction fuel with
+  | zero => intro c i _ _ h; omega
+  | succ f ih =>
+    intro c i hci hi hf
+    unfold getPrior.downH
+    split
+    · rename_i hcond
+      have : c ≠ i := by intro e; subst e; simp [hi] at hcond
+      have := ih (c - 1) i (by omega) hi (by omega)
+      exact ⟨by omega, this.2⟩
+    · rename_i hcond
+      exact ⟨Nat.le_refl _, by simpa using hcond⟩
+
+theorem getNext_unflagged (current high : Nat) (flags : Array Bool)
+    (hc : current ≤ high) (hex : ∃ i, i ≤ high ∧ flags[i]! = false) :
+    getNext current high flags ≤ high ∧ flags[getNext current high flags]! = false := by
+  unfold getNext
+  simp only
+  have h1 := up_spec high flags (high + 2) (current + 1) (by omega) (by omega)
+  split
+  · rename_i hle
+    exact ⟨hle, h1.2 hle⟩
+  · obtain ⟨i, hi, hfi⟩ := hex
+    have := up0_spec flags (high + 2) 0 i (by omega) hfi (by omega)
+    exact ⟨by omega, this.2⟩
+
+theorem getPrior_unflagged (current high : Nat) (flags : Array Bool)
+    (hc : current ≤ high) (hex : ∃ i, i ≤ high ∧ flags[i]! = false) :
+    getPrior current high flags ≤ high ∧ flags[getPrior current high flags]! = false := by
+  unfold getPrior
+  simp only
+  have hc0 : (if current = 0 then high else current - 1) ≤ high := by split <;> omega
+  generalize (if current = 0 then high else current - 1) = c0 at hc0
+  split
+  · rename_i hfl
+    exact ⟨Nat.le_trans (down_le flags _ _) hc0, by simpa using hfl⟩
+  · obtain ⟨i, hi, hfi⟩ := hex
+    exact downH_spec flags (high + 2) high i hi hfi (by omega)
+
+variable {D : Type} [LT D] [LE D] [DecidableRel (α := D) (· < ·)] [DecidableRel (α := D) (· ≤ ·)] [Inhabited D]
+
+theorem simplify_sublist (dist : Point64 → Point64 → Point64 → D) (maxD : D) (path : Array Point64) (epsSq : D)
+    (closed : Bool) : (simplifyPath dist maxD path epsSq closed).toList.Sublist path.toList := by
+  unfold simplifyPath
+  simp only
+  split
+  · exact List.Sublist.refl _
+  · generalize (simplifyLoop dist path epsSq closed (path.size - 1) (path.size + 1) _) = s
+    rw [Array.toList_filterMap, Array.toList_range]
+    have := filterMap_range_sublist path.toList (fun i => s.flags[i]!) (fun i => path[i]!)
+      (fun i h => by
+        have h' : i < path.size := by simpa using h
+        rw [getElem!_pos path i h', Array.getElem_toList]) path.size (by simp)
+    rw [List.take_of_length_le (by simp)] at this
+    exact this
+
+theorem count_set (l : List Bool) : ∀ (c : Nat),
+    ((l.set c true).filter (· = true)).length ≤ (l.filter (· = true)).length + 1 := by
+  induction l with
+  | nil => intro c; simp
+  | cons b t ih =>
+    intro c
+    cases c with
+    | zero => cases b <;> simp
+    | succ c =>
+      have := ih c
+      cases b <;> simp at this ⊢ <;> omega
+
+theorem step_flags (dist : Point64 → Point64 → Point64 → D) (path : Array Point64) (epsSq : D)
+    (closed : Bool) (high : Nat) (s s' : SimpState D) (h : simplifyStep dist path epsSq closed high s = some s') :
+    ∃ c, s'.flags = s.flags.set! c true := by
+  unfold simplifyStep at h
+  simp only at h
+  split at h
+  · contradiction
+  · split at h
+    · contradiction
+    · split at h
+      all_goals
+        simp only [Option.some.injEq] at h
+        subst h
+        exact ⟨_, rfl⟩
+
+theorem simplifyStep_flags_one (dist : Point64 → Point64 → Point64 → D) (path : Array Point64) (epsSq : D)
+    (closed : Bool) (high : Nat) (s s' : SimpState D) (h : simplifyStep dist path epsSq closed high s = some s') :
+    s'.flags.size = s.flags.size ∧
+    (s'.flags.toList.filter (· = true)).length ≤ (s.flags.toList.filter (· = true)).length + 1 := by
+  obtain ⟨c, hc⟩ := step_flags dist path epsSq closed high s s' h
+  rw [hc]
+  refine ⟨by simp, ?_⟩
+  rw [Array.set!_eq_setIfInBounds, Array.toList_setIfInBounds]
+  exact count_set _ c
+
 end Proofs.C16
